@@ -3,7 +3,7 @@
    property, `mech = true` mirrors the code's copy-in / write-through / copy-back of array parameters and self.
    The implementation's double representation of struct values is NOT modelled (property claimed partial). *)
 From Coq Require Import List ZArith Bool Arith.
-From Cb Require Import C07.Model C07.Store C07.History C07.CallConv C07.Witness C07.Nested.
+From Cb Require Import C07.Model C07.Store C07.History C07.CallConv C07.Witness C07.Nested C07.Recur.
 Import ListNotations.
 Local Open Scope Z_scope.
 
@@ -270,3 +270,73 @@ Example ptr_receiver_exits_witness :
     | _, _ => false
     end) (seq 0 7) = true.
 Proof. exact nested_exits_witness. Qed.
+
+(* ================================================================ calls nested to ANY depth: recursion, names
+   (write_frame_history, copy_independent and copy_independent_syntactic above range over histories that contain
+   OCallR - calls whose bodies call to any depth - as well: lemma exec_rstmt_frame in History.v) *)
+
+(* the recursive construct (Model.v: rstmt, exec_rstmt, OCallR) is a conservative extension: on a body of simple
+   statements it is exec_call_in / OCall, on a body with one level of calls it is OCall2 *)
+Theorem recursive_calls_conservative : forall mech h fr th ps body ret body2,
+  exec_rstmt mech h fr th (RCall ps (map RS body) ret) = exec_call_in mech h fr th ps body ret /\
+  exec_op mech h (OCallR ps (map rs_of_stmt body2) ret) = exec_op mech h (OCall2 ps body2 ret) /\
+  exec_op mech h (OCallR ps (map RS body) ret) = exec_op mech h (OCall ps body ret).
+Proof. exact recursive_calls_conservative_lemma. Qed.
+Print Assumptions recursive_calls_conservative.
+
+(* BY-VALUE ISOLATION AT EVERY DEPTH.  A call - made from main or from inside any callee (frame fr, enclosing copy-in
+   parameters th) - that passes ALL its arguments by value (structs with scalar, nested-struct and array members,
+   arrays of the model: any tree), whose body writes only through the callee's own parameters and the locals it declares
+   (`T c = e;` copies of any expression) and makes only calls of the same kind, to ANY depth (val_only: by-value recursion f(C v) -> f(v) -> f(v) ... included; the arguments are
+   arbitrary expressions of the calling level), and whose result is dropped or kept in a fresh variable, leaves EVERY
+   location that existed before the call unchanged: the caller's variables (the arguments too) and the by-value
+   copies owned by every outer level.  A parameter is its location: the names of the caller's variables, of the
+   outer levels' parameters or of globals play no role.  Both calling conventions. *)
+Theorem byval_calls_private : forall mech h fr th ps body e h' o fp (d : cell),
+  forallb is_val ps = true -> forallb (val_only (length h)) body = true ->
+  thru_lt (length h) th ->
+  (exec_rstmt mech h fr th (RCall ps body None) = Some (h', o, fp) \/
+   exec_rstmt mech h fr th (RCall ps body (Some (e, None))) = Some (h', o, fp)) ->
+  (fst d < length h)%nat ->
+  hread h' d = hread h d.
+Proof. exact byval_calls_private_lemma. Qed.
+Print Assumptions byval_calls_private.
+
+(* BY-REFERENCE RECURSION (aliasing convention): void f(C& v) { f(v); } n levels deep - also with an array parameter
+   or self handed down - whose innermost level writes v.ks = z: after the outermost call returns the value is read
+   through every path of the calling level to arg.ks, and every other cell that existed before is unchanged *)
+Theorem alias_visible_recursion : forall m n ks z a h fr l p h' o fp,
+  (m = MRef \/ m = MArr \/ m = MSelf) ->
+  resolve h fr a = Some (l, p) -> (l < length h)%nat ->
+  exec_rstmt false h fr [] (ref_chain m n ks z a) = Some (h', o, fp) ->
+  hread h' (l, p ++ ks) = Some (VInt z) /\
+  (forall a', resolve h' fr a' = Some (l, p ++ ks) -> eval h' fr a' = Some (VInt z)) /\
+  (forall d : cell, (fst d < length h)%nat -> overlap (l, p ++ ks) d = false -> hread h' d = hread h d) /\
+  (length h <= length h')%nat.
+Proof. exact alias_visible_recursion_lemma. Qed.
+Print Assumptions alias_visible_recursion.
+
+Example val_only_satisfiable :
+  forallb (val_only (length d_heap)) [d_level1] = true /\ forallb is_val [(MVal, AVar 1%nat)] = true.
+Proof. split; reflexivity. Qed.
+
+(* the shape of the seeded demo C07-3: int down(C v, int k) { v.n = ..; if (k > 0) { int below = down(v, k - 1);
+   println(k, below, v.n); } return v.n; } three levels deep: every level reads its OWN value after the inner call
+   returned (7/8, 8/9), the caller's `other` and `c` are untouched - under both conventions *)
+Example byval_recursion_witness :
+  forallb (fun mech =>
+    match transcript mech d_heap d_ops with
+    | ([l1; l2; l3], true) =>
+        zs_eqb2 l1 [1; 7; 8] && zs_eqb2 l2 [2; 8; 9] && zs_eqb2 l3 [3; 9; 10; 6; 100; 5]
+    | _ => false
+    end) [false; true] = true.
+Proof. exact byval_recursion_demo. Qed.
+
+Example callee_local_witness :
+  forallb (fun mech =>
+    match transcript mech d_heap l_ops with
+    | ([l1; l2], true) => zs_eqb2 l1 [1; 70; 10] && zs_eqb2 l2 [2; 10]
+    | _ => false
+    end) [false; true] = true /\
+  forallb (val_only (length d_heap)) [RDecl (APar 0%nat); RS (SWrite (AFld (AVar 3%nat) 0%nat) 70)] = true.
+Proof. exact callee_local_demo. Qed.
